@@ -44,12 +44,12 @@ S_OUT = [('-0.1', -0.1), ('-1e-12', -1e-12), ('1+1e-12', 1 + 1e-12), ('1.1', 1.1
 
 def rel_angles(tier, seed):
     out = []
-    for k in ((-12, -9, -8, -7, -6, -4, -3, -2, -1) if tier == 'quick' else range(-15, 0)):
+    for k in ((-12, -9, -8, -7, -6, -5, -4, -3, -2, -1) if tier == 'quick' else range(-15, 0)):
         out.append(('1e%d' % k, 10.0 ** k))
     if tier != 'quick':
-        out += [('1.5e-8', 1.5e-8), ('1.4e-7', 1.4e-7), ('3e-4', 3e-4), ('2e-3', 2e-3)]
+        out += [('1.5e-8', 1.5e-8), ('1.4e-7', 1.4e-7), ('3e-6', 3e-6), ('3e-5', 3e-5), ('3e-4', 3e-4), ('2e-3', 2e-3)]
     else:
-        out += [('3e-4', 3e-4), ('2e-3', 2e-3)]
+        out += [('3e-6', 3e-6), ('3e-4', 3e-4), ('2e-3', 2e-3)]
     out += [('0.7', 0.7), ('1.9', 1.9), ('2.5', 2.5), ('pi/2', PI / 2)]
     for k in ((-1, -3, -6) if tier == 'quick' else range(-6, 0)):
         out.append(('pi-1e%d' % k, PI - 10.0 ** k))
@@ -215,13 +215,21 @@ def three_d(ctx, k, K):
                 ('SE3.interp/vec', lambda: sm.SE3(ref.rt(R1, (1.0, 2, 3))).interp(np.array(sv), start=sm.SE3(ref.rt(R0, (0.5, -1, 0)))),
                  lambda s: sm.SE3(ref.rt(R1, (1.0, 2, 3))).interp(s, start=sm.SE3(ref.rt(R0, (0.5, -1, 0)))), 'SE3.interp'),
                 ('UnitQuaternion.interp/vec', lambda: sm.UnitQuaternion(q0.copy()).interp(list(sv), dest=sm.UnitQuaternion(q1.copy())),
-                 lambda s: sm.UnitQuaternion(q0.copy()).interp(s, dest=sm.UnitQuaternion(q1.copy())), 'UnitQuaternion.interp')):
+                 lambda s: sm.UnitQuaternion(q0.copy()).interp(s, dest=sm.UnitQuaternion(q1.copy())), 'UnitQuaternion.interp'),
+                ('UnitQuaternion.interp/vec/short=1/sign=-1', lambda: sm.UnitQuaternion(q0.copy()).interp(list(sv), dest=sm.UnitQuaternion(-q1, norm=False, check=False), shortest=True),
+                 lambda s: sm.UnitQuaternion(q0.copy()).interp(s, dest=sm.UnitQuaternion(-q1, norm=False, check=False), shortest=True), 'UnitQuaternion.interp'),
+                ('UnitQuaternion.interp/vec/short=1/sign=1', lambda: sm.UnitQuaternion(q0.copy()).interp(np.array(sv), dest=sm.UnitQuaternion(q1.copy()), shortest=True),
+                 lambda s: sm.UnitQuaternion(q0.copy()).interp(s, dest=sm.UnitQuaternion(q1.copy()), shortest=True), 'UnitQuaternion.interp'),
+                ('UnitQuaternion.interp/vec/short=0/sign=-1', lambda: sm.UnitQuaternion(q0.copy()).interp(list(sv), dest=sm.UnitQuaternion(-q1, norm=False, check=False)) if th >= 0.5 else None,
+                 lambda s: sm.UnitQuaternion(q0.copy()).interp(s, dest=sm.UnitQuaternion(-q1, norm=False, check=False)), 'UnitQuaternion.interp')):
             cid = '%s/%s' % (base, en)
             if not ctx.want(cid):
                 continue
             ctx.case(cid, key=cid)
             P = dict(P0, entry=en.split('/')[0], mode='vector-s')
             ok, seq = call(f)
+            if ok and seq is None:
+                continue            # pair excluded for this mode (nearly antipodal without shortest)
             if not ok:
                 ctx.fail(cid, site, 'raises:' + type(seq).__name__, P, 'vector of s raised %r' % (seq,))
                 continue
@@ -230,7 +238,7 @@ def three_d(ctx, k, K):
                 continue
             for j, s in enumerate(sv):
                 ok1, o = call(one, s)
-                if ok1 and ref.maxdiff(seq.data[j], o.data[0]) > 1e-12:
+                if ok1 and min(ref.maxdiff(seq.data[j], o.data[0]), ref.maxdiff(seq.data[j], -np.asarray(o.data[0])) if en.startswith('Unit') else 9) > 1e-12:
                     ctx.fail(cid, site, 'mismatch', dict(P, what='value', j=j), 'element %d of the sequence differs from the scalar call' % j)
 
 
